@@ -259,6 +259,30 @@ func bbBuild(r *simkit.Run) *bbWorld {
 		}
 	}
 
+	// strangers: nodes that are not in the suffrage vote too (their ballots are well-formed and pass the ingress check;
+	// only the suffrage tells them apart - which the box may learn after their ballots arrived)
+	for k := 0; k < r.Choose(3); k++ {
+		st := common.Local(60 + k)
+		r.Probe("ballot_of_a_non_member")
+
+		switch {
+		case stages >= 2 && r.Chance(1, 3):
+			add(-1, common.ACCEPTBallot(ivp33, c.SignACCEPT(st, acceptFacts[pick()]), nil), fmt.Sprintf("stranger%d ACCEPT h33r0", k))
+		default:
+			add(-1, common.INITBallot(w.avp32, c.SignINIT(st, initFacts[pick()]), nil), fmt.Sprintf("stranger%d INIT h33r0", k))
+		}
+	}
+
+	// an impostor: the address of a member, signed with a key that is not the member's (well-formed, passes the
+	// ingress check; the suffrage knows the member's real key)
+	if n >= 2 && r.Chance(1, 4) {
+		victim := 1 + r.Choose(n-1)
+		im := base.NewBaseLocalNode(base.DummyNodeHint, common.Local(70).Privatekey(), c.Nodes[victim].Address())
+
+		r.Probe("ballot_of_an_impostor")
+		add(-1, common.INITBallot(w.avp32, c.SignINIT(im, initFacts[pick()]), nil), fmt.Sprintf("impostor of node%d INIT h33r0", victim))
+	}
+
 	// every generated ballot must pass the ingress check of a real node
 	for _, d := range w.deliver {
 		if err := d.bl.IsValid(common.NetworkID); err != nil {
